@@ -4,11 +4,14 @@ import Mathlib.Tactic.Linarith
 import Mathlib.Tactic.SplitIfs
 import Mathlib.Tactic.Ring
 import Mathlib.Tactic.NormNum
+import Mathlib.Tactic.Tauto
 import Mathlib.Algebra.Order.Floor.Semiring
 /-!
 Thresholding step with an arbitrary post-spike reset map `ρ`, of which the two GENERATED
 functions `voltage_thresholding_constant` and `voltage_thresholding_linear` are shown to be
-instances (`gen_constant_eq`, `gen_linear_eq` — these break if the Python source changes shape).
+instances (`gen_constant_eq`, `gen_linear_eq` — proved by `rfl` when the generated text has the
+same shape and by case analysis otherwise, so semantics-preserving rewrites of the Python source
+(e.g. `torch.where(spikes, refrac_t, refracs)`) keep checking while semantic changes break them).
 All contract lemmas are proved once, about `thresholdG`.
 -/
 namespace InfernoVerif.Neuron
@@ -33,7 +36,11 @@ theorem gen_constant_eq (inputs refracs : ℝ) (dynamics : ℝ → ℝ) (voltage
     voltage_thresholding_constant inputs refracs dynamics voltages step_time reset_v thresh_v refrac_t
       = thresholdG (fun _ => reset_v) inputs refracs dynamics voltages step_time thresh_v refrac_t := by
   unfold voltage_thresholding_constant thresholdG
-  cases voltages <;> rfl
+  cases voltages <;>
+    first
+    | rfl
+    | (simp only [Prod.mk.injEq]
+       refine ⟨?_, ?_, ?_⟩ <;> first | trivial | rfl | (split_ifs <;> first | rfl | (exfalso; tauto) | simp_all))
 
 theorem gen_linear_eq (inputs refracs : ℝ) (dynamics : ℝ → ℝ) (voltages : Option ℝ)
     (step_time rest_v v_slope v_intercept thresh_v refrac_t : ℝ) :
@@ -41,7 +48,11 @@ theorem gen_linear_eq (inputs refracs : ℝ) (dynamics : ℝ → ℝ) (voltages 
       = thresholdG (fun v => rest_v + v_slope * (v - rest_v) - v_intercept) inputs refracs dynamics voltages
           step_time thresh_v refrac_t := by
   unfold voltage_thresholding_linear thresholdG
-  cases voltages <;> rfl
+  cases voltages <;>
+    first
+    | rfl
+    | (simp only [Prod.mk.injEq]
+       refine ⟨?_, ?_, ?_⟩ <;> first | trivial | rfl | (split_ifs <;> first | rfl | (exfalso; tauto) | simp_all))
 
 
 /-- One step of a neuron with voltage `v`, remaining refractory time `r`, voltage dynamics `dyn v`
